@@ -1,6 +1,8 @@
 mod crash;
+mod deep;
 mod disk;
 mod exec;
+mod fsck;
 mod model;
 mod obs;
 mod plan;
